@@ -6,6 +6,7 @@ mod engine;
 mod textgen;
 mod sl;
 mod oracle;
+mod prog;
 mod props;
 
 use engine::Tier;
@@ -25,6 +26,20 @@ fn main() {
         for p in props::all() {
             println!("{}", p.id());
         }
+        return;
+    }
+    if cmd == "eval" {
+        // exploration helper: evaluate a file with the harness globals, print transcript/outcome
+        let src = std::fs::read_to_string(&args[2]).unwrap();
+        let out = sl::run_src("x.star", &src, &sl::RunCfg::default(), &[]);
+        for t in &out.tx {
+            println!("tx: {t}");
+        }
+        match &out.result {
+            Ok(v) => println!("ok: {v}"),
+            Err(e) => println!("err[{}]: {}\n{}", e.kind, e.msg, e.full),
+        }
+        println!("ticks: {}", out.ticks);
         return;
     }
     if cmd == "c05-nest" {
